@@ -366,6 +366,12 @@ def grid_sig(g):
     return 1.0 + c * GRID_EDGES + 0.3 * c * c * GRID_EDGES ** 2 + 0.2 * np.sin(3.0 * c) * (1.0 - GRID_EDGES)
 
 
+def grid_sig2(g):
+    """a second signal PDF manifold on the same gamma grid (e.g. an angular-error PDF set made on the spectral-index grid)"""
+    c = float(g) - 1.0
+    return 0.8 + 0.5 * c * (1.0 - GRID_EDGES) + 0.15 * c * c * GRID_EDGES + 0.1 * np.cos(2.0 * c) * GRID_EDGES ** 2
+
+
 def grid_bkg():
     return 1.5 - 1.0 * GRID_EDGES
 
@@ -425,6 +431,22 @@ def build_grid(case, trial=0):
         sigset = SignalMultiDimGridPDFSet(
             pmm=pmm, param_set=ParameterSet([Parameter('gamma', 1.5, float(gvals[0]), float(gvals[-1]))]),
             param_grid_set=grid, gridparams_pdfs=pdfs, interpol_method_cls=icls, cfg=cfg)
+        if case.get('sig_product'):
+            # the signal PDF is a product pdf1*pdf2 (SignalPDFProduct -> PDFProduct.get_pd): 'both' = both factors are PDF
+            # sets on the gamma grid (both depend on the same fit parameters), 'first' / 'second' = the other factor is a
+            # parameter-free signal PDF
+            from skyllh.core.pdf import SignalPDFProduct
+            if case['sig_product'] == 'both':
+                pdfs2 = [({'gamma': float(g)}, SignalMultiDimGridPDF(pmm=pmm, axis_binnings=axes, pdf_grid_data=grid_sig2(g), cfg=cfg))
+                         for g in gvals]
+                other = SignalMultiDimGridPDFSet(
+                    pmm=pmm, param_set=ParameterSet([Parameter('gamma', 1.5, float(gvals[0]), float(gvals[-1]))]),
+                    param_grid_set=ParameterGrid('gamma', gvals, delta=GRID_DELTA, decimals=1), gridparams_pdfs=pdfs2,
+                    interpol_method_cls=icls, cfg=cfg)
+            else:
+                other = SignalMultiDimGridPDF(pmm=pmm, axis_binnings=axes, pdf_grid_data=grid_sig2(1.4), cfg=cfg)
+            sigset = SignalPDFProduct(sigset, other, cfg=cfg) if case['sig_product'] != 'second' \
+                else SignalPDFProduct(other, sigset, cfg=cfg)
         bkg = BackgroundMultiDimGridPDF(pmm=pmm, axis_binnings=axes, pdf_grid_data=grid_bkg(), cfg=cfg)
         inner = SigOverBkgPDFRatio(sig_pdf=sigset, bkg_pdf=bkg, same_axes=False, cfg=cfg)
         outer = SourceWeightedPDFRatio(dataset_idx=j, src_detsigyield_weights_service=sdw, pdfratio=inner, cfg=cfg)
